@@ -221,7 +221,27 @@ def run_buffer(seed, replay):
     ch = Chooser(seed, replay)
     c = ch.stream("buffer")
     out = Outcome(seed)
-    cap = (0, 1, 2, 3, 7, 8, 9, 16, 31)[c.choose(9)]
+    cap = (0, 1, 2, 3, 7, 8, 9, 16, 31, -1, -8, 1 << 62)[c.choose(12)]
+    if cap < 0 or cap > 1 << 40:
+        # an unusable capacity must be rejected by the constructor (never hand out an object whose
+        # storage does not exist: it is not touched here, that would crash the harness)
+        try:
+            Buffer(capacity=cap)
+            accepted = True
+        except (ValueError, MemoryError, OverflowError):
+            accepted = False
+        if accepted:
+            out.violation = violation_dict(Violation(
+                "c04.buffer", "unusable-capacity-accepted",
+                "Buffer(capacity=%d) returned an object instead of raising" % cap))
+        out.summary = {"reason": "violation" if accepted else "done", "steps": 1, "sim_time": 0.0, "fired": {},
+                       "probes": {"rejected:constructor": 0 if accepted else 1}, "extra": {"buffer_ops": 1},
+                       "digest": stable_hash(("ctor", cap, accepted)), "states": [repr((cap, 0))]}
+        out.choices = ch.dump()
+        out.nontrivial = True
+        out.signature = stable_hash(("ctor", cap))
+        out.sample = {"seed": seed, "variant": "buffer", "capacity": cap, "ops": [("Buffer()", "rejected")]}
+        return out
     if c.choose(3) == 0:
         init = bytes((i * 37 + 1) & 0xFF for i in range(cap))
         buf = Buffer(data=init)
